@@ -125,12 +125,21 @@ Definition mention_list (recursive : bool) (a : path) : list (path * node) :=
   | _ => match glob a with Some (q :: l) => map (fun q => (q, fs q)) (q :: l) | _ => [(a, fs a)] end
   end.
 
-(* ---- openFileToReader with an explicit file offset ---- *)
+(* ---- openFileToReader with an explicit file offset ----
+   A TFile node is any non-directory entry that opens and delivers its bytes: a regular file, but
+   also a named pipe, /dev/stdin, a process substitution (the walk of -R emits every non-directory
+   entry).  Only regular files can be rewound, so the model does not rewind: the bytes the gzip
+   probe consumed are recorded and replayed in front of the rest of the descriptor (repaired
+   behaviour, fixes/C06-gunzip-rewind.patch; the pinned tree calls Seek(0), see open_input_seek). *)
 Record fd := mkfd { f_data : content; f_off : nat }.
 Definition fd_open (c : content) : fd := mkfd c 0.
 Definition fd_advance (k : nat) (f : fd) : fd := mkfd (f_data f) (Nat.min (f_off f + k) (length (f_data f))).
 Definition fd_seek0 (f : fd) : fd := mkfd (f_data f) 0.
 Definition fd_rest (f : fd) : content := skipn (f_off f) (f_data f).   (* what reading to EOF delivers *)
+(* reading (up to) k bytes: the bytes read, the descriptor afterwards *)
+Definition fd_read (k : nat) (f : fd) : content * fd := (firstn k (fd_rest f), fd_advance k f).
+(* io.MultiReader(bytes.NewReader(recorded), baseFile) after a probe that consumed k bytes *)
+Definition fd_replay (k : nat) (f : fd) : content := let (recorded, f') := fd_read k f in recorded ++ fd_rest f'.
 
 (* result: None = os.Open failed; Some (d, e, g) = the reader delivers d, ends in an error iff e,
    and g "Gunzip error ... Reading as plain file" lines were logged.
@@ -144,12 +153,15 @@ Definition open_input (z : bool) (k : nat) (n : node) : option (content * bool *
       if z then
         match gunzip c with
         | Some (d, e) => Some (d, e, 0)
-        | None => Some (fd_rest (fd_seek0 (fd_advance k f)), false, 1)
+        | None => Some (fd_replay k f, false, 1)
         end
       else Some (fd_rest f, false, 0)
   end.
-(* the same without the rewind, to show what the Seek is for *)
+(* the fallback without any rewind, and the fallback by Seek(0), which only a seekable descriptor
+   honours (on a pipe Seek fails with ESPIPE and the error was ignored) *)
 Definition open_input_noseek (k : nat) (c : content) : content := fd_rest (fd_advance k (fd_open c)).
+Definition open_input_seek (seekable : bool) (k : nat) (c : content) : content :=
+  let f := fd_advance k (fd_open c) in fd_rest (if seekable then fd_seek0 f else f).
 
 (* declarative side *)
 Definition delivered (z : bool) (n : node) : option (content * bool) :=
